@@ -289,7 +289,7 @@ class Upload:
 
     def __init__(self, tp, sc, arg, via_open, rev):
         from pycomm3 import LogixDriver
-        self.arg, self.via_open, self.rev = arg, via_open, rev
+        self.arg, self.via_open, self.rev, self.tp = arg, via_open, rev, tp
         self.error = None
         self.drv = None
         load(tp, sc)
@@ -423,12 +423,74 @@ def oracle(R, sc, case, up, view, cls):
             R.fail("a filtered symbol class is in tags", dict(case, tag=full), full, "absent", cls)
         if is_module_io(g) and full not in drv.tags:
             R.fail("a module I/O tag is missing", dict(case, tag=full), names[:20], full, cls)
+    return json_view_check(R, drv, up.tp, sc, view, star, case, cls)
+
+
+def member_request(rng, sc, drv):
+    """a read request for a member of an uploaded structure tag (None: the project has none)"""
+    cands = [g for g in sc.data_tags() if g["kind"] == "s" and not S._hidden_tag(g) and sc.full_name(g) in drv.tags
+             and not sc.is_string(sc.template(g["code"]))]
+    for _ in range(12):
+        if not cands:
+            return None
+        req = S.gen_request(rng, sc, rng.choice(cands))[0]
+        if req.count(".") > (1 if req.startswith("Program:") else 0):      # a member path, not the whole structure
+            return req
+    return None
+
+
+def read_matches(drv, tp, req):
+    """the real driver reads `req` from the live target and returns the reference value"""
+    exp = RV.refread(tp, req)
+    if exp is None:
+        return None
     try:
+        with alarm(20):
+            res = drv.read(req)
+    except Exception as e:            # noqa: BLE001
+        return f"raised {e!r}"
+    if not res:
+        return f"failed: {res.error}"
+    if not RV.same_value(exp["value"], res.value) or res.type != exp["type"]:
+        return f"{res.value!r} ({res.type}) != {RV.to_python(exp['value'])!r} ({exp['type']})"
+    return True
+
+
+def json_view_check(R, drv, tp, sc, view, star, case, cls, rng=None):
+    """json.dumps(drv.tags_json), twice — and reading the JSON view must not change what was uploaded:
+    tags / data_types (type classes included) are the same objects' worth as before, still equal the
+    abstract view, and a structure-member read still returns the controller's value"""
+    rng = rng or random.Random(len(drv.tags) * 7919 + len(drv.data_types))
+    before = driver_trees(drv)
+    req = member_request(rng, sc, drv)
+    base = read_matches(drv, tp, req) if req else None
+    try:
+        js = drv.tags_json
+        json.dumps(js)
         js = drv.tags_json
         json.dumps(js)
     except Exception as e:            # noqa: BLE001
         R.fail("tags_json is not JSON-serialisable", case, repr(e), "json.dumps succeeds", cls)
         return None, False
+    try:
+        after = driver_trees(drv)
+    except Exception as e:            # noqa: BLE001
+        after = repr(e)
+    if after != before:
+        which = next((k for k in before if not isinstance(after, dict) or after.get(k) != before[k]), "?")
+        R.fail("reading tags_json changed what was uploaded", dict(case, changed=which),
+               first_diff(before[which], after[which]) if isinstance(after, dict) and which in before else str(after)[:200],
+               "tags and data_types unchanged (type classes included)", cls)
+    for d in RV.diff_upload(view, drv, program_tags=star)[:4]:
+        R.fail("after tags_json the upload differs from the controller's abstract view", dict(case, diff=d), d, "no difference", cls)
+    if req and base is True:
+        R.count("structure-member read after tags_json", "checked")
+        again = read_matches(drv, tp, req)
+        if again is not True:
+            R.fail("a structure-member read after tags_json does not return the controller's value", dict(case, request=req), again,
+                   "the reference value (it was returned before tags_json was read)", cls)
+    elif req:
+        R.count("structure-member read after tags_json", "skipped: the read does not match the reference before tags_json either")
     return js, True
 
 
@@ -608,10 +670,7 @@ def run_reupload(R, tp, tpv, mp, rng, label):
             else:
                 R.fail("a later upload does not show the controller's current project", dict(case, diff=d, step=where), d, "no difference",
                        "reupload " + flow)
-        try:
-            json.dumps(drv.tags_json)
-        except Exception as e:      # noqa: BLE001
-            R.fail("tags_json is not JSON-serialisable", dict(case, step=where), repr(e), "json.dumps succeeds", "reupload " + flow)
+        json_view_check(R, drv, tp, b, view, arg == "star", dict(case, step=where), "reupload " + flow, rng)
 
     drv = None
     try:
